@@ -119,6 +119,11 @@ class Interp:
         self.live = set()
         self.sites = {}
         self.lambda_names = {}
+        # Background fibers, for programs whose launched functions print nothing and only feed channels (C17): a
+        # launch is deferred until the launching code waits on a channel. Off by default: the sequential model says
+        # nothing about scheduling, programs with real fiber interplay are judged by pbt/kpn.py instead
+        self.fibers = False
+        self.deferred = []
         _natives.install(self)
 
     # ------------------------------------------------------------------ utilities
@@ -391,7 +396,11 @@ class Interp:
         elif k == "import":
             self.exec_import(s, env, module_level)
         elif k == "launch":
-            raise Unsupported("launch in the sequential model")
+            if not self.fibers or s[1][0] != "call":
+                raise Unsupported("launch in the sequential model")
+            fn = self.eval(s[1][1], env)
+            argv = [self.eval(a, env) for a in s[1][2]]
+            self.deferred.append((fn, argv))
         else:
             raise Unsupported("stmt %s" % k)
 
@@ -654,6 +663,28 @@ class Interp:
             return LBound(recv, m)
         if k == "chan":
             return self.eval_chan(e, env)
+        if k == "recv" and self.fibers:
+            ch = self.eval(e[1], env)
+            if not isinstance(ch, LChannel):
+                raise Unsupported("receive from a non channel")
+            while True:
+                if ch.buf:
+                    return ch.buf.pop(0)
+                if ch.closed:
+                    return None
+                if not self.deferred:
+                    raise Unsupported("receive would block")
+                fn, argv = self.deferred.pop(0)
+                self.call_value(fn, argv)
+        if k == "send" and self.fibers:
+            ch = self.eval(e[1], env)
+            v = self.eval(e[2], env)
+            if not isinstance(ch, LChannel):
+                raise Unsupported("send to a non channel")
+            if ch.closed:
+                raise self.error("RuntimeError", "Attempted to send into a closed channel.")
+            ch.buf.append(v)
+            return v
         raise Unsupported("expr %s" % k)
 
     def eval_chan(self, e, env):
